@@ -8,6 +8,8 @@ for r in rows:
     if not os.path.exists(p):
         continue
     m = json.load(open(p))
+    if m.get("obsolete"):
+        continue
     if r.get("applies") is False:
         m["caught_by"] = None
         m["sweep"] = "patch no longer applies to /repo HEAD"
@@ -17,5 +19,6 @@ for r in rows:
     json.dump(m, open(p, "w"), indent=1)
 print("caught %d / %d" % (sum(1 for r in rows if r.get("caught")), len(rows)))
 for r in rows:
-    if not r.get("caught"):
+    obsolete = json.load(open(os.path.join(V, "seeded", r["name"], "meta.json"))).get("obsolete") if os.path.exists(os.path.join(V, "seeded", r["name"], "meta.json")) else None
+    if not r.get("caught") and not obsolete:
         print("NOT CAUGHT:", r["name"], r.get("applies"))
